@@ -551,3 +551,36 @@ pub fn run_tokens(case: &Value) -> ParseOut {
     let neof = events.iter().filter(|e| e["ev"] == "token" && e["tok"]["k"] == "eof").count();
     ParseOut { events, tree, quirks, parents_ok: true, panic, feeds: Vec::new(), neof, tree_flags, istate }
 }
+
+/// Bytes through the driver's from_utf8() front end (Utf8LossyDecoder -> Parser): C10's tree clause.
+/// case: {"bytes":[[u8..]..], "scripting":bool}
+pub fn run_parse_bytes(case: &Value) -> ParseOut {
+    use html5ever::driver::{parse_document, ParseOpts};
+    use html5ever::tendril::{ByteTendril, TendrilSink};
+    let scripting = case["scripting"].as_bool().unwrap_or(true);
+    let opts = ParseOpts { tree_builder: TreeBuilderOpts { scripting_enabled: scripting, ..Default::default() }, ..Default::default() };
+    let chunks: Vec<Vec<u8>> = case["bytes"].as_array().unwrap().iter()
+        .map(|c| c.as_array().unwrap().iter().map(|b| b.as_u64().unwrap() as u8).collect()).collect();
+    let r = catch(move || {
+        let mut p = parse_document(MonSink::new(true), opts).from_utf8();
+        for ch in &chunks {
+            p.process(ByteTendril::from_slice(ch));
+        }
+        p.finish()
+    });
+    match r {
+        Ok(sink) => {
+            let tree = dump(&sink.inner.document);
+            let tree_flags = dump_flags(&sink.inner.document, &sink.dups.borrow());
+            let quirks = match sink.inner.quirks_mode.get() {
+                QuirksMode::Quirks => "full",
+                QuirksMode::LimitedQuirks => "limited",
+                QuirksMode::NoQuirks => "no",
+            };
+            let parents_ok = parents_consistent(&sink.inner.document);
+            ParseOut { events: Vec::new(), tree, quirks, parents_ok, panic: None, feeds: Vec::new(), neof: 1, tree_flags, istate: "none".into() }
+        },
+        Err(m) => ParseOut { events: Vec::new(), tree: json!({"k":"none"}), quirks: "no", parents_ok: true, panic: Some(m), feeds: Vec::new(), neof: 0,
+                             tree_flags: json!({"k":"none"}), istate: "none".into() },
+    }
+}
